@@ -12,70 +12,140 @@ func init() { register("C02", "other", checkC02) }
 // downwardScan checks `for i := <top>-1; i >= 0; i-- { ... return ... }` and
 // reports the expression <top>.
 func (c *Ctx) downwardScan(fs *ast.ForStmt) (top string, ok bool) {
+	// Every spelling of "visit top-1, top-2, …, 0": with T the table's count field, i the induction
+	// variable starting at i0 and stepping by ±1, the table index e(i) used in the body must satisfy
+	// e(i0) = T-1, decrease by one per iteration, and the guard must let the loop run exactly while e(i) >= 0.
 	as, isA := fs.Init.(*ast.AssignStmt)
-	if !isA || len(as.Lhs) != 1 || len(as.Rhs) != 1 {
+	if !isA || len(as.Lhs) != 1 || len(as.Rhs) != 1 || fs.Cond == nil {
 		return "", false
 	}
-	iv := c.objOf(as.Lhs[0].(*ast.Ident))
-	// i := top-1; i >= 0   or   d := top; d > 0 (indexing with d-1)
-	start := int64(0) // what is subtracted from top
-	if be, isB := stripParens(as.Rhs[0]).(*ast.BinaryExpr); isB && be.Op == token.SUB {
-		k, isC := c.intConst(be.Y)
-		if !isC || k != 1 {
-			return "", false
-		}
-		start = 1
-		top = c.fieldPath(be.X)
-	} else {
-		top = c.fieldPath(as.Rhs[0])
-	}
-	atoms, pure := c.nnf(fs.Cond, true, nil).conjuncts()
-	if fs.Cond == nil || !pure || len(atoms) != 1 {
+	ivID, isID := as.Lhs[0].(*ast.Ident)
+	if !isID {
 		return "", false
 	}
-	b, isB := c.boundOf(atoms[0])
-	if !isB || !c.isObj(b.X, iv) || b.Lo == nil || b.Hi != nil || *b.Lo != 1-start {
-		return "", false
-	}
-	if start == 0 {
-		// every use of the induction variable as an index is iv-1
-		okIdx := true
-		ast.Inspect(fs.Body, func(n ast.Node) bool {
-			ix, ok := n.(*ast.IndexExpr)
-			if !ok {
-				return true
-			}
-			if c.isObj(ix.Index, iv) {
-				okIdx = false
-			}
-			return true
-		})
-		if !okIdx {
-			return "", false
-		}
-	}
+	iv := c.objOf(ivID)
 	post, isP := fs.Post.(*ast.IncDecStmt)
-	if !isP || post.Tok != token.DEC || !c.isObj(post.X, iv) {
+	if !isP || !c.isObj(post.X, iv) {
+		return "", false
+	}
+	step := int64(1)
+	if post.Tok == token.DEC {
+		step = -1
+	}
+	// linear evaluation over the symbols "i" and "T" (the count field, found on the way)
+	var eval func(e ast.Expr) (*Lin, bool)
+	eval = func(e ast.Expr) (*Lin, bool) {
+		e = c.stripConv(e)
+		if k, isC := c.intConst(e); isC {
+			return linConst(k), true
+		}
+		switch x := e.(type) {
+		case *ast.Ident:
+			if c.objOf(x) == iv {
+				return linSym("i"), true
+			}
+		case *ast.SelectorExpr:
+			fp := c.fieldPath(x)
+			if strings.HasSuffix(fp, ".localCount") || strings.HasSuffix(fp, ".blockTos") {
+				if top == "" || top == fp {
+					top = fp
+					return linSym("T"), true
+				}
+			}
+		case *ast.BinaryExpr:
+			a, ok1 := eval(x.X)
+			b, ok2 := eval(x.Y)
+			if ok1 && ok2 {
+				switch x.Op {
+				case token.ADD:
+					return a.add(b), true
+				case token.SUB:
+					return a.sub(b), true
+				}
+			}
+		}
+		return nil, false
+	}
+	i0, ok0 := eval(as.Rhs[0])
+	if !ok0 || i0.coef("i") != 0 {
+		return "", false
+	}
+	// the table index used in the body
+	var idx *Lin
+	okIdx := true
+	ast.Inspect(fs.Body, func(n ast.Node) bool {
+		ix, isIx := n.(*ast.IndexExpr)
+		if !isIx {
+			return true
+		}
+		fp := c.fieldPath(ix.X)
+		if !strings.HasSuffix(fp, ".locals") && !strings.HasSuffix(fp, ".blockStack") {
+			return true
+		}
+		l, okL := eval(ix.Index)
+		if !okL || l.coef("i") == 0 {
+			okIdx = false
+			return true
+		}
+		if idx != nil && !idx.equal(l) {
+			okIdx = false
+		}
+		idx = l
+		return true
+	})
+	if idx == nil || !okIdx || top == "" {
+		return "", false
+	}
+	subst := func(e *Lin, iVal *Lin) *Lin {
+		k := e.coef("i")
+		return e.without("i").add(iVal.scale(k))
+	}
+	// starts at T-1, moves down by one
+	if !subst(idx, i0).equal(linSym("T").sub(linConst(1))) || idx.coef("i")*step != -1 {
+		return "", false
+	}
+	// the guard: a single comparison of i with a bound; the last admitted i must give index 0
+	atoms, pure := c.nnf(fs.Cond, true, nil).conjuncts()
+	if !pure || len(atoms) != 1 {
+		return "", false
+	}
+	rel, isRel := c.relOf(atoms[0])
+	if !isRel {
+		return "", false
+	}
+	l, okL := eval(rel.L)
+	rr, okR := eval(rel.R)
+	if !okL || !okR {
+		return "", false
+	}
+	// normalise to  i <= last  (step +1)  or  i >= last  (step -1)
+	var last *Lin
+	switch {
+	case l.equal(linSym("i")) && rr.coef("i") == 0 && step == 1: // i < R  or  i <= R
+		last = rr
+		if rel.Op == token.LSS {
+			last = rr.sub(linConst(1))
+		} else if rel.Op != token.LEQ {
+			return "", false
+		}
+	case rr.equal(linSym("i")) && l.coef("i") == 0 && step == -1: // L < i  or  L <= i
+		last = l
+		if rel.Op == token.LSS {
+			last = l.add(linConst(1))
+		} else if rel.Op != token.LEQ {
+			return "", false
+		}
+	default:
+		return "", false
+	}
+	if !subst(idx, last).equal(linConst(0)) {
 		return "", false
 	}
 	// the induction variable is not assigned in the body
-	clean := true
-	ast.Inspect(fs.Body, func(n ast.Node) bool {
-		switch n := n.(type) {
-		case *ast.AssignStmt:
-			for _, l := range n.Lhs {
-				if c.isObj(l, iv) {
-					clean = false
-				}
-			}
-		case *ast.IncDecStmt:
-			if c.isObj(n.X, iv) {
-				clean = false
-			}
-		}
-		return true
-	})
-	return top, clean && top != ""
+	if c.assignedIn(fs.Body, iv) {
+		return "", false
+	}
+	return top, true
 }
 
 func ruleResolveOrder(c *Ctx, r *Report, rule string) {
@@ -479,7 +549,7 @@ func ruleFieldAccess(c *Ctx, r *Report, rule string) {
 	var ranges int
 	if arm := vm.Arms["opGETFIELD"]; arm != nil && arm.Clause != nil {
 		// the scan may live in the arm or in a closure it calls
-		nodes := []ast.Node{arm.Clause}
+		nodes := vm.armNodes(c, arm)
 		if lit != nil {
 			nodes = append(nodes, lit)
 		}
